@@ -6,16 +6,23 @@ CLAIM = ("dot, length, distance, cross, normalize, faceforward, reflect, refract
          "l1Norm, l2Norm, lMaxNorm, lxNorm, proj, perp, orthonormalize, angle, orientedAngle, closestPointOnLine, triangleNormal, cross(vec2), mixedProduct are executed symbolically from "
          "their clang IR. In rounding-erased (real) semantics the solver shows the Euclidean identities of the property for every input vector (sum of products, non-negative root of the "
          "squared norm, orthogonality / anti-commutativity / determinant formula of cross, unit positive multiple, reflection formula with involution and length preservation for unit N, "
-         "Snell's law for unit I, N, Gram-Schmidt characterisation of orthonormalize, clamped-projection definition of closestPointOnLine, cos(angle) = dot for unit vectors). In bit-precise "
-         "IEEE semantics it shows that refract returns the all-zero bit pattern whenever k = 1 - eta*eta*(1 - dot(N,I)^2) < 0 and the GLSL formula otherwise, and that faceforward returns N "
-         "bit-for-bit when dot(Nref,I) < 0 and N with flipped sign bits otherwise (dot = +-0, NaN included), identically in the vec1 and scalar overloads.")
+         "Snell's law for unit I, N, Gram-Schmidt characterisation of orthonormalize(x, y) and orthonormalize(mat3) (orthonormal columns spanning the same flag with the same orientation, for "
+         "every matrix with det != 0), clamped-projection definition of closestPointOnLine, cos(angle) = dot for unit vectors). The harder identities (orthonormalize, triangleNormal, |refract| = 1, "
+         "Cauchy-Schwarz for angle) are proved as chains of small lemmas over one symbolic execution, each step a separate solver query, some after generalising sub-terms to fresh reals. In bit-precise "
+         "IEEE semantics it shows that refract returns the all-zero bit pattern whenever k = 1 - eta*eta*(1 - dot(N,I)^2) < 0 and the GLSL formula otherwise (k = 0 included), that faceforward returns N "
+         "bit-for-bit when dot(Nref,I) < 0 and N with flipped sign bits otherwise (dot = +-0, NaN included), identically in the vec1 and scalar overloads, and that angle / orientedAngle hand acos an "
+         "argument in [-1, 1] (or NaN when the dot product is NaN) for every input, so that unit vectors whose dot product rounds above 1 cannot produce NaN.")
 BOUNDS = ("real mode: all real inputs satisfying the stated non-degeneracy precondition of each obligation (v != 0, unit N, eta > 0, linearly independent columns ...), L = 1..4, float and double "
-          "instantiations; fp mode: all 2^32 / 2^64 bit patterns per component (refract: inputs for which the documented k is not NaN); lxNorm: Depth in {1, 2, 3} only")
+          "instantiations; fp mode: all 2^32 / 2^64 bit patterns per component (refract: inputs for which the documented k is not NaN); lxNorm: Depth in {1, 2, 3, 4} only")
 OUTSIDE = ("magnitude of floating-point rounding error in any identity (orthogonality of cross under cancellation is decided in the rounding-erased sense only); overflow/underflow of squared norms; "
-           "lxNorm for Depth > 3 and the numerical accuracy of pow/acos; the value of angle() beyond cos(angle) = dot and 0 <= angle <= pi; aligned/SIMD qualifiers (C03)")
+           "lxNorm for Depth > 4 and the numerical accuracy of pow/acos; the value of angle() beyond cos(angle) = dot and 0 <= angle <= pi; refract on total internal reflection in real mode (sqrt of a "
+           "negative has no real model: that half is decided bit-precisely); the sign of zero components of -N in faceforward for vec3/vec4 (0 - v, C01); aligned/SIMD qualifiers (C03). "
+           "Optional (attempted, not part of the claim): the ieee-lemma.*.sqrt-facts lemmas, which only shape counterexamples, and the steps of a lemma chain that do not go through (the goals they serve are then "
+           "decided by their direct queries)")
 ASSUMPTIONS = ['real mode erases rounding: every fadd/fsub/fmul/fdiv is exact, sqrt(x) is the non-negative real root (engine/models.py:rcall)',
                'acos is specified by cos(acos(t)) = t and 0 <= acos(t) <= pi for -1 <= t <= 1 (cos an uninterpreted even function at the specification level, pi a real in (3.14159, 3.1416))',
-               'pow(x,1) = x, pow(x,2) = x*x, pow(x,3) = x*x*x, pow(x,1/n) = the non-negative n-th root for x >= 0 (used for lxNorm only)',
+               'pow(x,n) = x*..*x for n = 1..4, pow(x,1/n) = the non-negative n-th root for x >= 0 (used for lxNorm only)',
+               'libm acos returns NaN exactly for arguments outside [-1, 1] (used only to evaluate the angle obligations on natively replayed values; the proved statement is about the argument handed to acos)',
                'fp mode: "dot(N,I)" is read as the IEEE evaluation of the component products summed left to right ((x+y)+z; (x+y)+(z+w) for vec4), k and the result as the GLSL formula evaluated operation by operation in IEEE double/float']
 FT = {'f32': ('float', 32), 'f64': ('double', 64)}
 U = Unit('c12', includes=['glm/glm.hpp', 'glm/gtx/norm.hpp', 'glm/gtx/projection.hpp', 'glm/gtx/perpendicular.hpp', 'glm/gtx/orthonormalize.hpp', 'glm/gtx/vector_angle.hpp',
@@ -65,6 +72,12 @@ for t, (c, w) in FT.items():
 def units(tier): return [U]
 
 # ------------------------------------------------------------------ specification helpers (reals)
+def pin_hyps(S, name, ins):
+    """./check C12 --replay <file>: the inputs of the named check are fixed to the recorded counterexample"""
+    hy = []
+    for terms, vals in zip(ins, S.pins.get(name) or []):
+        for t, v in zip(terms, vals): hy.append(t == bv(int(v, 16), t.size()) if z3.is_bv(t) else t == z3.RealVal(v))
+    return hy
 def rdot(x, y): return sum((p * q for p, q in zip(x[1:], y[1:])), x[0] * y[0])
 def rsub(x, y): return [p - q for p, q in zip(x, y)]
 def rabs(x): return z3.If(x >= 0, x, -x)
@@ -92,8 +105,8 @@ class Chain:
     generalised implication is valid, so is every instance of it - sound for 'unsat'; a generalised counterexample means nothing and is never reported).
     User-facing goals fall back to the direct query over all hypotheses (with native replay) when the chain does not close, so a defect in the
     code still surfaces as a reproduced VIOLATION."""
-    def __init__(s, S, fname, name=None, pre=None, bounds='', mandatory=True, timeout=None, extra_hyps=None, ins=None, witness=True, direct_solver='nra', witness_at=None):
-        s.S = S; s.direct_solver = direct_solver; s.fname = fname; s.name = name or 'c12.' + fname; s.prefn = pre; s.mandatory = mandatory; s.tm = timeout or S.cap(60, 200)
+    def __init__(s, S, fname, name=None, pre=None, bounds='', mandatory=True, timeout=None, extra_hyps=None, ins=None, witness=True, direct_solver='nra', witness_at=None, slices=()):
+        s.S = S; s.slices = list(slices); s.direct_solver = direct_solver; s.fname = fname; s.name = name or 'c12.' + fname; s.prefn = pre; s.mandatory = mandatory; s.tm = timeout or S.cap(60, 200)
         s.fn = U.fns[fname]; s.facts = {}; s.nf = 0
         if getattr(S, 'c12_fail', 0) >= 3: s.tm = min(s.tm, S.cap(20, 60))        # several obligations of this job have already failed: keep the rest short
         try: s.res = sym_call(U, fname, ins=ins, mode='real')
@@ -104,7 +117,7 @@ class Chain:
         p = pre(s.res.ins) if pre else []
         s.pre = list(p) if isinstance(p, (list, tuple)) else [p]
         s.extra = list(extra_hyps(s.res)) if extra_hyps else []
-        s.base = input_wellformed(s.fn, s.res.ins) + s.pre + s.extra + s.res.axioms
+        s.base = input_wellformed(s.fn, s.res.ins) + s.pre + s.extra + s.res.axioms + pin_hyps(S, s.name, s.res.ins)
         s.i = s.res.ins; s.o = s.res.outs; s.sq = list(getattr(s.res.ex, 'sqrt_log', []))
         s.fnlist = ['w_%s -> %s' % (fname, s.fn.body.strip().replace('\n', ' ')[:160])]
         s.binfo = bounds + '; ll=' + U.ll_sha()
@@ -113,7 +126,9 @@ class Chain:
                              timeout=S.cap(20, 60), kind='witness', functions=s.fnlist, bounds=s.binfo, expect='sat', mandatory=False)
     def sqrt_ax(s, k):
         """the defining axiom of the k-th executed square root: (argument, variable, [variable >= 0, variable^2 == argument])"""
-        A, y = s.sq[k]; return A, y, [y >= 0, y * y == A]
+        A, y = s.sq[k]; ax = z3.And(y >= 0, y * y == A)
+        if not any(ax.eq(a_) for a_ in s.res.axioms): return A, y, []     # not the executor's axiom (engine changed): offer no hypothesis, the steps then fail and the direct queries decide
+        return A, y, [y >= 0, y * y == A]
     def _gen(s, terms, gen):
         sub = []
         for g in gen:
@@ -151,26 +166,39 @@ class Chain:
             try: r, m, dt, used = s.S.query(tt[:-1] + [z3.Not(tt[-1])], timeout or s.S.cap(20, 60), solver)
             except z3.Z3Exception: r, dt, used = 'unknown', 0.0, solver
             if r == 'unsat': done(r, dt, used, '; via lemma chain' + (' generalised over %d sub-terms' % len(gen) if gen else ''), 'uses ' + ','.join(use)); return True
-        # the chain did not close (or there is none): direct query over all hypotheses
-        try: r, m, dt, used = s.S.query(s.base + [z3.Not(goal)], s.tm, s.direct_solver, s.vars)
-        except z3.Z3Exception: r, dt, used = 'unknown', 0.0, s.direct_solver
-        if r == 'unsat': done(r, dt, used, ''); return True
-        s.tm = min(s.tm, s.S.cap(20, 60))          # something is wrong with this function: the remaining direct queries get a short budget (the job must end inside its cap)
-        s.S.c12_fail = getattr(s.S, 'c12_fail', 0) + 1
-        # not proved: look for a ROBUST counterexample first (bounded inputs, the atom violated by a margin) - nlsat otherwise returns models that violate an equality by 1e-9 and do not
-        # survive the float replay.  The extra constraints only narrow the search; any model is a counterexample of the unrestricted obligation.
-        hy = s.base
+        # The chain did not close (or there is none).  Counterexamples are searched ROBUSTLY: bounded inputs, no division by zero / sqrt of a negative on the way (x/0 is
+        # uninterpreted in the model and NaN natively), the atom violated by a margin - nlsat otherwise returns models that violate an equality by 1e-9 and do not survive the float
+        # replay - and first inside the function's sparse input SLICES (most inputs fixed), where a counterexample is small enough to be found.  These constraints only narrow
+        # the search: any model is a counterexample of the unrestricted obligation, and nothing is ever proved from them.
+        far = None
         if rgoal is not None:
             l, r_ = rgoal.l, rgoal.r; half = z3.RealVal('1/2')
             far = {'eq': z3.Or(l - r_ > half, r_ - l > half), 'le': l - r_ > half, 'lt': l - r_ > half, 'ge': r_ - l > half, 'gt': r_ - l > half}[rgoal.kind]
             if rgoal.guard is not None: far = z3.And(rgoal.guard, far)
-            box = [z3.And(v >= -4, v <= 4) for v in s.vars if z3.is_real(v)]
-            box += [z3.Not(c_) for k_, c_, d_ in s.res.obligations if k_ == 'domain']        # a well-defined execution: x/0 is uninterpreted in the model and NaN natively
-            try: r2, m2, dt2, used2 = s.S.query(s.base + box + [far], s.S.cap(20, 60), s.direct_solver, s.vars)
-            except z3.Z3Exception: r2 = 'unknown'
-            if r2 == 'sat': hy = s.base + box + [far]
+        box = [z3.And(v >= -4, v <= 4) for v in s.vars if z3.is_real(v)]
+        if spec_fn is None: far = z3.Not(goal)          # an obligation of the executor itself (division by zero ...): any bounded input reaching it
+        else: box += [z3.Not(c_) for k_, c_, d_ in s.res.obligations if k_ == 'domain']
+        def search(cands):
+            for cons in cands:
+                try: r2, m2, dt2, used2 = s.S.query(s.base + box + cons + [far], s.S.cap(20, 60) if not cons else s.S.cap(10, 30), s.direct_solver, s.vars)
+                except z3.Z3Exception: r2 = 'unknown'
+                if r2 == 'sat': return s.base + box + cons + [far]
+            return None
+        chain_failed = bool(use or hyps or gen); sl = [f(s.i) for f in s.slices]; found = None; r = 'sat'
+        if chain_failed and far is not None and sl: found = search(sl)          # a step of the chain broke: the code has probably changed, look for the counterexample before the long direct query
+        if found is None:
+            try: r, m, dt, used = s.S.query(s.base + [z3.Not(goal)], s.tm, s.direct_solver, s.vars)
+            except z3.Z3Exception: r, dt, used = 'unknown', 0.0, s.direct_solver
+            if r == 'unsat': done(r, dt, used, ''); return True
+            if far is not None: found = search(([] if chain_failed else sl) + [[]])
+        s.tm = min(s.tm, s.S.cap(20, 60))          # something is wrong with this function: the remaining direct queries get a short budget (the job must end inside its cap)
+        s.S.c12_fail = getattr(s.S, 'c12_fail', 0) + 1
+        hy = found if found is not None else s.base
+        nv = len(s.S.violations)
         s.S._prove_known(oname, goal, hy, s.res, (), timeout=s.tm if r != 'unknown' or hy is not s.base else 1, solver=s.direct_solver, kind=kind, functions=s.fnlist, bounds=s.binfo, spec_fn=spec_fn, pre_fn=s.prefn,
                          unit=U, fname=s.fname, mode='real', vars_=s.vars, mandatory=s.mandatory, replayer=None if spec_fn else s._side_replay(oname))
+        for v in s.S.violations[nv:]:
+            if isinstance(v[1], dict): v[1]['pin_name'] = s.name
         return False
     def _side_replay(s, oname):
         """a violated domain obligation (division by zero, sqrt of a negative under the stated precondition) is reproduced when the native function, run on the nearest
@@ -275,7 +303,8 @@ def job_core_real(t, L):
             g = [('tangential%d' % k, REq(r[k] - rn * N[k], eta * (I[k] - d * N[k]))) for k in range(L)]
             g += [('unit', REq(rdot(r, r), 1)), ('into-surface', RGoal('le', rn, 0)), ('normal-part', REq(rn * rn, kk(i)))]
             return g
-        C = Chain(S, 'refract' + s, name='c12.refract%s.transmit' % s, pre=pre_t, timeout=tm, bounds='unit I, unit N, eta > 0, k >= 0', direct_solver='qfnra', witness_at=at_e0(0, 1, r2=1))
+        C = Chain(S, 'refract' + s, name='c12.refract%s.transmit' % s, pre=pre_t, timeout=tm, bounds='unit I, unit N, eta > 0, k >= 0', direct_solver='qfnra', witness_at=at_e0(0, 1, r2=1),
+                  slices=[lambda i: [x == (1 if k == 0 else 0) for k, x in enumerate(i[0])] + [x == (1 if k == 1 else 0) for k, x in enumerate(i[1])]] if L >= 2 else [])      # I = e0, N = e1: k = 1 - eta^2
         if C.res is not None and len(C.sq) == 1:
             # r = eta I - c N with c = eta d + sqrt(k), d = N.I:  |r|^2 = eta^2 |I|^2 - 2 eta c d + c^2 |N|^2 = eta^2 (1 - d^2) + k = 1  and  r.N = eta d - c |N|^2 = -sqrt(k)  for unit I, N
             I, N, eta = C.i[0], C.i[1], C.i[2][0]; r = R(C.o[0]); A, sv, ax = C.sqrt_ax(0); d = rdot(N, I); c_ = eta * d + sv; f = [eta * I[k] - c_ * N[k] for k in range(L)]
@@ -342,18 +371,18 @@ def acos_of(d):
         v = float(z3val_to_fraction(d)); return z3.RealVal(repr(math.acos(max(-1.0, min(1.0, v)))))
     return ACOS
 def pow_axioms(res):
-    """pow(x,1) = x, pow(x,2) = x*x, pow(x,3) = x*x*x, pow(x,1/n) = non-negative n-th root (x >= 0)"""
+    """pow(x,n) = x*..*x (n = 1..4), pow(x,1/n) = non-negative n-th root (x >= 0, n = 2..4)"""
     hy = []
     for key, (var, args) in getattr(res.ex, 'trig', {}).items():
         if key[0] != 'pow': continue
         b, e = args; e = z3.simplify(e)
         if not z3.is_rational_value(e): continue
         n, dn = e.numerator_as_long(), e.denominator_as_long()
-        if dn == 1 and 1 <= n <= 3:
+        if dn == 1 and 1 <= n <= 4:
             p = b
             for _ in range(n - 1): p = p * b
             hy.append(var == p)
-        elif n == 1 and 2 <= dn <= 3:
+        elif n == 1 and 2 <= dn <= 4:
             p = var
             for _ in range(dn - 1): p = p * var
             hy.append(z3.Implies(b >= 0, z3.And(var >= 0, p == b)))
@@ -400,17 +429,18 @@ def job_gtx3(t):
                     ('l2-between-nonneg', RGoal('ge', r[2], 0)), ('l2-between-square', REq(r[2] * r[2], rdot(d, d))), ('l2-nonneg', RGoal('ge', r[3], 0)), ('l2-square', REq(r[3] * r[3], rdot(a_, a_))),
                     ('lmax-between', REq(r[4], rmax([rabs(x) for x in d]))), ('lmax', REq(r[5], rmax([rabs(x) for x in a_])))]
         rcheck(S, 'norms_' + t, nspec, mode='real', timeout=tm, bounds='all real vec3', mutant=lambda i, o: [('m', REq(o[0][5].r, rmax([rabs(x) for x in i[0][:2]])))])
-        for n in (1, 2, 3):
+        def ipow(x, n): return x if n == 1 else x * ipow(x, n - 1)
+        for n in (1, 2, 3, 4):
             def lx(i, o, n=n):
-                a_, b_ = i[0], i[1]; r = R(o[0]); pw = lambda x: x if n == 1 else (x * x if n == 2 else x * x * x)
+                a_, b_ = i[0], i[1]; r = R(o[0]); pw = lambda x: ipow(x, n)
                 return [('between-nonneg', RGoal('ge', r[0], 0)), ('between-power', REq(pw(r[0]), sum(pw(rabs(q - p)) for p, q in zip(a_, b_)))), ('nonneg', RGoal('ge', r[1], 0)), ('power', REq(pw(r[1]), sum(pw(rabs(p)) for p in a_)))]
             ins = [[z3.Real('a%d' % k) for k in range(3)], [z3.Real('b%d' % k) for k in range(3)], [z3.BitVecVal(n, 32)]]
-            rcheck(S, 'lxnorm_' + t, lx, mode='real', timeout=tm, ins=ins, extra_hyps=pow_axioms, name='c12.lxnorm_%s.depth%d' % (t, n), bounds='all real vec3, Depth = %d' % n, mandatory=(n < 3))
+            rcheck(S, 'lxnorm_' + t, lx, mode='real', timeout=tm, ins=ins, extra_hyps=pow_axioms, name='c12.lxnorm_%s.depth%d' % (t, n), bounds='all real vec3, Depth = %d' % n)
         # orthonormalize(x, y): unit y
         def ov(i, o):
             x, y = i; r = R(o[0])
             return [('unit', REq(rdot(r, r), 1)), ('orthogonal-to-y', REq(rdot(r, y), 0)), ('in-span', REq(rdet3(x, y, r), 0)), ('towards-x', RGoal('gt', rdot(r, x), 0))]
-        C = Chain(S, 'ortho_v3_' + t, pre=lambda i: [rdot(i[1], i[1]) == 1, rdot(rcross(i[0], i[1]), rcross(i[0], i[1])) > 0], timeout=tm, bounds='unit y, x not parallel to y')
+        C = Chain(S, 'ortho_v3_' + t, pre=lambda i: [rdot(i[1], i[1]) == 1, rdot(rcross(i[0], i[1]), rcross(i[0], i[1])) > 0], timeout=tm, bounds='unit y, x not parallel to y', slices=[lambda i: [i[1][0] == 0, i[1][1] == 1, i[1][2] == 0]])
         if C.res is not None:
             x, y = C.i; r = R(C.o[0]); d = rdot(y, x); dd = d * d; w = [x[k] - y[k] * d for k in range(3)]; W = rdot(w, w); c_ = rcross(x, y); cc = rdot(c_, c_); yy = rdot(y, y); q = rdot(x, x) - dd
             C.lemma('lagrange', W == cc + (1 - yy) * q)                               # |x - y (y.x)|^2 = |x cross y|^2 for unit y (polynomial identity, no hypotheses)
@@ -426,7 +456,7 @@ def job_gtx3(t):
         def tn(i, o):
             p1, p2, p3 = i; r = R(o[0]); e1 = rsub(p2, p1); e2 = rsub(p3, p1)
             return [('unit', REq(rdot(r, r), 1)), ('orthogonal-to-edge12', REq(rdot(r, e1), 0)), ('orthogonal-to-edge13', REq(rdot(r, e2), 0)), ('right-handed', RGoal('gt', rdot(r, rcross(e1, e2)), 0))]
-        C = Chain(S, 'trinormal_' + t, pre=lambda i: [rdot(rcross(rsub(i[1], i[0]), rsub(i[2], i[0])), rcross(rsub(i[1], i[0]), rsub(i[2], i[0]))) > 0], timeout=tm, bounds='non-degenerate triangles')
+        C = Chain(S, 'trinormal_' + t, pre=lambda i: [rdot(rcross(rsub(i[1], i[0]), rsub(i[2], i[0])), rcross(rsub(i[1], i[0]), rsub(i[2], i[0]))) > 0], timeout=tm, bounds='non-degenerate triangles', slices=[lambda i: [x == 0 for x in i[0]] + [x == (1 if k == 0 else 0) for k, x in enumerate(i[1])]])
         if C.res is not None:
             p1, p2, p3 = C.i; r = R(C.o[0]); V = rcross(rsub(p2, p1), rsub(p3, p1)); VV = rdot(V, V)
             sv = normalize_shape(C, 0, V, r, 'n', pos_hyps=C.pre); A = C.sqrt_ax(0)[0]
@@ -438,8 +468,17 @@ def job_gtx3(t):
             def cp(i, o, L=L):
                 p, a_, b_ = i; ab = rsub(b_, a_); tt = rdot(rsub(p, a_), ab) / rdot(ab, ab); tc = z3.If(tt <= 0, z3.RealVal(0), z3.If(tt >= 1, z3.RealVal(1), tt))
                 return [('clamped-projection%d' % k, REq(o[0][k].r, a_[k] + tc * ab[k])) for k in range(L)]
-            rcheck(S, nm + t, cp, lambda i: [rdot(rsub(i[2], i[1]), rsub(i[2], i[1])) > 0], mode='real', timeout=tm, bounds='all real point, a != b',
-                       mutant=lambda i, o: [('m', REq(o[0][0].r, i[1][0] + (rdot(rsub(i[0], i[1]), rsub(i[2], i[1])) / rdot(rsub(i[2], i[1]), rsub(i[2], i[1]))) * (i[2][0] - i[1][0])))])
+            C = Chain(S, nm + t, pre=lambda i: [rdot(rsub(i[2], i[1]), rsub(i[2], i[1])) > 0], timeout=tm, bounds='all real point, a != b', slices=[lambda i: [x == 0 for x in i[1]] + [x == (1 if k == 0 else 0) for k, x in enumerate(i[2])]])
+            if C.res is None: continue
+            if len(C.sq) == 1:
+                # the code works with the length s = |b - a| and the signed distance D = (p - a).(b - a)/s; the definition with the parameter t = (p - a).(b - a)/|b - a|^2 = D/s
+                p, a_, b_ = C.i; o = R(C.o[0]); ab = rsub(b_, a_); q = rdot(ab, ab); n_ = rdot(rsub(p, a_), ab); A, sv, ax = C.sqrt_ax(0); dr = [ab[k] / sv for k in range(L)]; D = rdot(rsub(p, a_), dr)
+                C.lemma('arg', A == q); C.lemma('spos', sv > 0, use=['arg'], hyps=ax + C.pre, gen=[A, q]); C.lemma('D*s', D * sv == n_, use=['spos'])
+                for k in range(L): C.lemma('out%d' % k, o[k] == z3.If(D <= 0, a_[k], z3.If(D >= sv, b_[k], a_[k] + dr[k] * D)), use=['spos'])
+                C.side(lambda kind, dsc, cond, k: dict(use=['arg'], hyps=C.pre, gen=[A, q]) if 'sqrt' in dsc else dict(use=['spos']))
+                C.goals(cp, {'clamped-projection%d' % k: dict(use=['out%d' % k, 'D*s', 'spos', 'arg'], hyps=ax, gen=[o[k], D, n_] + opaque(A, q) + [q]) for k in range(L)})
+            else: C.side(); C.goals(cp)
+            C.twins(lambda i, o: [('m', REq(o[0][0].r, i[1][0] + (rdot(rsub(i[0], i[1]), rsub(i[2], i[1])) / rdot(rsub(i[2], i[1]), rsub(i[2], i[1]))) * (i[2][0] - i[1][0])))])
     return run
 def job_ortho_m3(t):
     """orthonormalize(mat3) = Gram-Schmidt on the columns.  One execution, ~70 small steps: per column k the shape r_k * s_k = u_k (u_k = m_k minus its components along the
@@ -453,6 +492,7 @@ def job_ortho_m3(t):
             g += [('col1-in-span', REq(rdet3(m[0], m[1], r[1]), 0)), ('col1-direction', RGoal('gt', rdot(r[1], m[1]), 0)), ('col2-direction', RGoal('gt', rdot(r[2], m[2]), 0))]
             return g
         C = Chain(S, 'ortho_m3_' + t, pre=lambda i: [rdet3(i[0][0:3], i[0][3:6], i[0][6:9]) != 0], timeout=tm, bounds='all real matrices with linearly independent columns',
+                  slices=[lambda i: [x == v for x, v in zip(i[0], (1, 0, 0, None, 1, 0, None, None, 1)) if v is not None]],       # unit lower-triangular matrices
                   witness_at=lambda i: [x == (1 if k in (0, 4, 8) else 0) for k, x in enumerate(i[0])])
         if C.res is None: return
         m0, m1, m2 = C.i[0][0:3], C.i[0][3:6], C.i[0][6:9]; o = R(C.o[0]); r0, r1, r2 = o[0:3], o[3:6], o[6:9]; det = rdet3(m0, m1, m2); L = C.lemma
@@ -607,7 +647,7 @@ def job_lemmas(S):
         x = z3.BitVec('x', w); y = z3.BitVec('y', w); X, Y = fpof(x), fpof(y); one = FPV(1.0, w); z = FPV(0.0, w); tm = S.cap(120, 300)
         S.prove('c12.ieee-lemma.%s.mul-one' % t, val_eq(z3.fpMul(RNE, X, one), X), timeout=tm, kind='lemma', bounds='all x')
         S.prove('c12.ieee-lemma.%s.lt-as-not-leq' % t, z3.fpLT(X, Y) == z3.And(z3.Not(z3.fpIsNaN(X)), z3.Not(z3.fpIsNaN(Y)), z3.Not(z3.fpLEQ(Y, X))), timeout=tm, kind='lemma', bounds='all x, y')
-        S.prove('c12.ieee-lemma.%s.sqrt-negative-is-nan' % t, z3.Implies(z3.fpLT(X, z), z3.fpIsNaN(z3.fpSqrt(RNE, X))), timeout=tm, kind='lemma', bounds='all x', mandatory=(w == 32))
+        S.prove('c12.ieee-lemma.%s.sqrt-negative-is-nan' % t, z3.Implies(z3.fpLT(X, z), z3.fpIsNaN(z3.fpSqrt(RNE, X))), timeout=tm, kind='lemma', bounds='all x')
         S.prove('c12.ieee-lemma.%s.sqrt-facts' % t, sqrt_fact(X, z3.fpSqrt(RNE, X)), timeout=tm, kind='lemma', bounds='all x', mandatory=False)
 REGIONS = {'tir': lambda res, k: canon(z3.fpLT(fk(res.ins, res.ins[0][0].size())[0], FPV(0.0, res.ins[0][0].size())))}
 def knan(w): return lambda i: [canon(z3.Not(z3.fpIsNaN(fk(i, w)[0])))]
@@ -644,8 +684,8 @@ def fp_check(S, fname, spec, pre=None, *, name, timeout, solver='z3', bounds='',
     res = S.check_fn(U, fname, None, pre, timeout=timeout, solver=solver, name=name, bounds=bounds, witness=False, side=side, validate=validate, mutant=mutant)
     if res is None: return None
     fn = U.fns[fname]; p = pre(res.ins) if pre else []
-    hyps = input_wellformed(fn, res.ins) + list(p if isinstance(p, (list, tuple)) else [p]) + res.axioms
-    if witness:     # the hypotheses are satisfiable: witnessed at the all-zero input (searching one costs the solver 20 s of multiplier bit-blasting)
+    hyps = input_wellformed(fn, res.ins) + list(p if isinstance(p, (list, tuple)) else [p]) + res.axioms + pin_hyps(S, name, res.ins)
+    if witness and not S.pins:     # the hypotheses are satisfiable: witnessed at the all-zero input (searching one costs the solver 20 s of multiplier bit-blasting)
         S.prove(name + '.witness', z3.BoolVal(False), hyps + [x == 0 for r_ in res.ins for x in r_], timeout=S.cap(20, 60), kind='witness', functions=['w_' + fname], bounds=bounds, expect='sat', mandatory=False)
     goals = spec(res.ins, res.outs); facts = [sqrt_fact(t_, c_) for t_, c_ in SQRT_CONSTS.values()]; vars_ = [x for r_ in res.ins for x in r_]
     fnlist = ['w_%s -> %s' % (fname, fn.body.strip().replace('\n', ' ')[:160])]; binfo = bounds + '; ll=' + U.ll_sha(); found = False
@@ -656,21 +696,27 @@ def fp_check(S, fname, spec, pre=None, *, name, timeout, solver='z3', bounds='',
         ga = abstract_arith(hyps + [g])
         r, m, dt, used = S.query(ga[:-1] + [z3.Not(ga[-1])], S.cap(10, 30), 'z3')
         if r == 'unsat': done(used, dt, '; generalised over the arithmetic sub-terms'); continue
-        t1 = 5 if found else (S.cap(10, 30) if getattr(S, 'c12_fail', 0) >= 3 else S.cap(30, 90))
-        r, m, dt, used = S.query(hyps + facts + [z3.Not(g)], t1, solver, vars_)
-        if r == 'unsat': done(used, dt); continue
-        hy = hyps + facts
-        if r == 'unknown':
-            for sn, sl in slices:
-                r2, m2, dt2, used2 = S.query(hy + sl(res.ins) + [z3.Not(g)], 5 if found else S.cap(10, 30), solver, vars_)
-                if r2 == 'sat': hy = hy + sl(res.ins); r = 'sat'; break
-        if r == 'sat':
-            nv = len(S.violations)
-            S.prove(oname, g, hy, timeout=t1, solver=solver, kind='spec', functions=fnlist, bounds=binfo, replay=rp, vars_=vars_)
-            found = found or len(S.violations) > nv
+        t1 = 5 if found else (S.cap(10, 30) if getattr(S, 'c12_fail', 0) >= 3 else S.cap(30, 90)); t2 = 5 if found else S.cap(10, 30)
+        last = None; proved = False
+        for sn, cons, tmo in [(None, [], t1)] + [(sn_, sl_(res.ins), t2) for sn_, sl_ in slices]:
+            r, m, dt, used = S.query(hyps + facts + cons + [z3.Not(g)], tmo, solver, vars_)
+            if sn is None and r == 'unsat': done(used, dt); proved = True; break
+            if sn is None: last = (r, dt, used, None, None)
+            if r != 'sat': continue
+            try: verdict, info = rp(m)
+            except Exception: verdict, info = 'replay-error', {'error': traceback.format_exc()[-1500:]}
+            if isinstance(info, dict): info['pin_name'] = name
+            last = ('sat', dt, used, verdict, info)
+            if verdict == 'reproduced': break
+        if proved: continue
+        r, dt, used, verdict, info = last
+        rec = S.rec(name=oname, kind='spec', functions=fnlist, bounds=binfo, solver=used, result=r, time_s=round(dt, 3), mandatory=True)
+        if verdict == 'reproduced':
+            rec.update(status='counterexample', replay=verdict, replay_info=info); S.violations.append((oname, info)); found = True
         else:
-            S.rec(name=oname, kind='spec', functions=fnlist, bounds=binfo, solver=used, result='unknown', time_s=round(dt, 3), status='inconclusive', mandatory=True); S.inconclusive.append(oname)
-            S.c12_fail = getattr(S, 'c12_fail', 0) + 1
+            rec['status'] = 'inconclusive' if verdict is None else 'inconclusive(cex not reproduced)'
+            if verdict is not None: rec.update(replay=verdict, replay_info=info)
+            S.inconclusive.append(oname + ('' if verdict is None else ' [counterexample not reproduced natively: ' + verdict + ']')); S.c12_fail = getattr(S, 'c12_fail', 0) + 1
     return res
 def zero_tail(rows, keep=1):
     """slice: all but the first `keep` components of the listed input vectors are +0"""
